@@ -69,7 +69,9 @@ def point_sets(rng):
         B = np.array([[rng.uniform(-5, 5) for _ in range(3)] for _ in range(n)])
     else:
         B = A @ Q
-    return kind, A, B, Q
+    # the unit the coordinates are expressed in is arbitrary (metres, Angstrom, picometres, model units): optimality is scale free
+    sc = rng.choice([1.0, 1.0, 1.0, 1.0, 1e-10, 1e-7, 1e-3, 1e3, 1e6])
+    return kind, A * sc, B * sc, Q
 
 
 def capture_svd(A, B):
@@ -141,14 +143,16 @@ def judge(seed, nrand):
         R = num.kabsch_rotation_matrix(A, B)
     except Exception as ex:  # noqa
         return kind, f"kabsch_rotation_matrix raised {type(ex).__name__}: {ex}"
-    if not np.allclose(R @ R.T, np.eye(3), atol=1e-9):
+    if not np.allclose(R @ R.T, np.eye(3), rtol=0, atol=1e-9):
         return kind, "returned matrix is not orthogonal"
     if abs(np.linalg.det(R) - 1.0) > 1e-9:
         return kind, f"returned matrix has determinant {np.linalg.det(R):.6f} (improper rotation)"
+    A = np.asarray(A, dtype=float)
+    sc = max(float(np.abs(A).max()), float(np.abs(B).max())) / 5.0          # size of the data relative to the unscaled generator
     best = rmsd(A, B, R)
-    if kind in ("generic", "planar", "collinear") and best > 1e-8:
-        return kind, f"congruent sets are not superposed: RMSD {best:.3g}"
-    if kind == "mirror" and len(A) > 3 and np.linalg.matrix_rank(A - A.mean(axis=0), tol=1e-6) == 3 and best < 1e-3:
+    if kind in ("generic", "planar", "collinear") and best > 1e-8 * sc:
+        return kind, f"congruent sets (coordinates of size {5 * sc:.3g}) are not superposed: RMSD {best:.3g}"
+    if kind == "mirror" and len(A) > 3 and np.linalg.matrix_rank((A - A.mean(axis=0)) / sc, tol=1e-6) == 3 and best < 1e-3 * sc:
         return kind, "mirror images were superposed (an improper rotation must have been used)"
     cands = [Q, np.eye(3)]
     for _ in range(nrand):
@@ -160,13 +164,24 @@ def judge(seed, nrand):
         K = np.array([[0, -ax[2], ax[1]], [ax[2], 0, -ax[0]], [-ax[1], ax[0], 0]])
         cands.append(R @ (np.eye(3) + math.sin(th) * K + (1 - math.cos(th)) * K @ K))
     for C in cands:
-        if rmsd(A, B, C) < best - 1e-9:
-            return kind, f"a proper rotation gives RMSD {rmsd(A, B, C):.10f} < {best:.10f} of the returned one"
+        if rmsd(A, B, C) < best - 1e-9 * sc:
+            return kind, f"a proper rotation gives RMSD {rmsd(A, B, C):.10g} < {best:.10g} of the returned one (coordinates of size {5 * sc:.3g})"
     r2 = num.rmsd_points(A, B)
-    if abs(r2 - best) > 1e-9:
+    if abs(r2 - best) > 1e-9 * sc:
         return kind, f"rmsd_points = {r2} but the RMSD after optimal alignment is {best}"
-    if not np.allclose(num.reorient_points(A, B), A @ R, atol=1e-10):
+    if not np.allclose(num.reorient_points(A, B), A @ R, rtol=0, atol=1e-10 * sc):
         return kind, "reorient_points is not A·R"
+    # the same array objects again after the first set was turned IN PLACE (as Molecule.rotate does): the helpers answer for the
+    # coordinates the arrays hold now
+    A2, B2 = A.copy(), np.asarray(B, dtype=float).copy()
+    num.rmsd_points(A2, B2)
+    num.reorient_points(A2, B2)
+    A2[:] = A2 @ rand_rot(rng)
+    again, moved = num.rmsd_points(A2, B2), num.reorient_points(A2, B2)
+    fresh, fresh_moved = num.rmsd_points(A2.copy(), B2.copy()), num.reorient_points(A2.copy(), B2.copy())
+    if abs(again - fresh) > 1e-9 * sc or not np.allclose(moved, fresh_moved, rtol=0, atol=1e-9 * sc):
+        return kind, (f"rmsd_points / reorient_points asked again on the same arrays after the first was rotated in place give {again:.6g}; "
+                      f"fresh copies of the same coordinates give {fresh:.6g}")
     return kind, None
 
 
@@ -188,8 +203,15 @@ def judge_dimer(seed):
         K = np.array([[0, -ax[2], ax[1]], [ax[2], 0, -ax[0]], [-ax[1], ax[0], 0]])
         Q = np.eye(3) + math.sin(th) * K + (1 - math.cos(th)) * K @ K
     shift = np.array([rng.uniform(4, 9), rng.uniform(-2, 2), rng.uniform(-2, 2)])
-    a = Molecule([Element[z] for z in zs], P)
-    b = Molecule([Element[z] for z in zs], P @ Q + shift)
+    kw_a, kw_b = {}, {}
+    if rng.random() < 0.5:
+        # molecules as a crystal hands them out: every atom tagged with the operation that generated it. Two independent molecules
+        # (Z' = 2) both carry the identity and still differ by a rotation
+        code = rng.choice([16484, 16484, 16487])
+        kw_a = {"generator_symop": np.array([16484] * n), "asym_mol_idx": 0}
+        kw_b = {"generator_symop": np.array([code] * n), "asym_mol_idx": 1}
+    a = Molecule([Element[z] for z in zs], P, **kw_a)
+    b = Molecule([Element[z] for z in zs], P @ Q + shift, **kw_b)
     try:
         d = Dimer(a, b, transform_ab="calculate")
         R, v = d.transform_ab
